@@ -214,7 +214,7 @@ func (c *Ctx) isFieldOf(pkgpath, tname string, path ...string) func(ssa.Value) b
 		if o.Kind != "param" && o.Kind != "freevar" {
 			return false
 		}
-		return typeIs(o.Root.Type(), pkgpath, tname) && o.PathStr() == want
+		return typeIs(o.RootType(), pkgpath, tname) && o.PathStr() == want
 	}
 }
 
@@ -222,7 +222,7 @@ func originIsField(o Origin, pkgpath, tname string, path ...string) bool {
 	if o.Kind != "param" && o.Kind != "freevar" {
 		return false
 	}
-	return typeIs(o.Root.Type(), pkgpath, tname) && o.PathStr() == strings.Join(path, ".")
+	return typeIs(o.RootType(), pkgpath, tname) && o.PathStr() == strings.Join(path, ".")
 }
 
 func guardOK(gs []Guard, ok ssa.Value) bool {
